@@ -474,7 +474,9 @@ class StateWorld(Run):
                 via = "list"
         if via == "list":
             obs = self.gen_obs(rng, name)
-            if "view_operand" in self.cfg["faults"] and rv > 0.85:
+            if rng.random() < 0.01:
+                obs = []     # measuring nothing: no outcome, probability 1, state untouched
+            elif "view_operand" in self.cfg["faults"] and rv > 0.85:
                 via = rng.choice(["stride", "index", "mask"])
         op["via"] = via
         op["obs"] = sut.strs(obs)
@@ -483,7 +485,7 @@ class StateWorld(Run):
 
     def _p_remeasure(self, rng):
         lm = self.last_meas
-        if lm is None or lm[0] not in self.slots or "remeasure" not in self.cfg["faults"]:
+        if lm is None or lm[0] not in self.slots or "remeasure" not in self.cfg["faults"] or not lm[1]:
             return None
         name, obs = lm
         variant = rng.choice(["same", "same", "sub", "prod", "neg", "super"])
@@ -863,6 +865,7 @@ class StateWorld(Run):
             raise Violation(own + ".outcome_length", {"want": len(obs), "got": len(outl)})
         m = pre.copy()
         und = 0
+        prev_o = None
         for k, P in enumerate(obs):
             o = outl[k]
             if o not in (0, 1):
@@ -884,6 +887,16 @@ class StateWorld(Run):
                 if self._fair:
                     self.stats["fair_coins"] += 1
                     self.stats["fair_ones"] += o
+                    # strata for the batch-level fairness / independence oracles
+                    pos = "first" if und == 1 else "later"
+                    self.stats["fair_coins:" + pos] += 1
+                    self.stats["fair_ones:" + pos] += o
+                    rk = "rank_reducing" if m.rank < before else "rank_keeping"
+                    self.stats["fair_coins:" + rk] += 1
+                    self.stats["fair_ones:" + rk] += o
+                    if prev_o is not None:
+                        self.stats["fair_pair:%d%d" % (prev_o, o)] += 1
+                    prev_o = o
         if float(log2prob) != -float(und):
             raise Violation(own + ".log2prob", {"want": -und, "got": float(log2prob), "ctx": ctx})
         try:
@@ -919,14 +932,16 @@ class StateWorld(Run):
                 raise Skip()
         else:
             obs = sut.parse_list(op["obs"])
-            if any(len(p[0]) != n for p in obs) or not obs:
+            if any(len(p[0]) != n for p in obs) or (not obs and via != "list"):
                 raise Skip()
             for i in range(len(obs)):
                 for j in range(i):
                     if not rm.pcommute(obs[i][0], obs[j][0]):
                         raise Skip()
             if via == "list":
-                obj = sut.mk_list(obs)
+                obj = sut.mk_list(obs, n)
+                if not obs:
+                    self.probes["empty_observable_list"] += 1
             else:
                 # view operand: the same observables reached through strided / fancy selection
                 junk = (tuple([1] * n), 1)
